@@ -35,6 +35,7 @@ def shards(tier):
     out += [("setpoint", 0, 0, 0)]
     out += [("byte", i, 0, 0) for i in (1, 2, 3, 7, 8, 9, 10, 13, 14, 19, 21)]
     out += [("length", 0, 0, 0)]
+    out += [("history", i, 0, 0) for i in (1, 2, 3, 7, 8, 9, 10, 13, 14, 19, 21)]
     if tier == "thorough":
         out += [("setpoint-full", lo, 0, 0) for lo in range(0, 256, 16)]
         out += [("flagpairs", i, j, 0) for i, j in ((8, 9), (8, 10), (9, 10), (1, 2), (3, 7), (13, 14), (19, 21), (2, 10))]
@@ -48,6 +49,37 @@ def execute(payload: bytes, check: str = "crc"):
     ac = rig.client()
     try:
         out = rig.run(ac.refresh())
+        return out, ac
+    finally:
+        rig.close()
+
+
+def execute_history(payloads, check="crc"):
+    """One client: refresh(P0); local (unapplied) edits of every settable attribute; refresh(P1); ... - the last report wins."""
+    from msmart.device import AirConditioner as AC
+    ref = RefAC(check=check)
+    rig = Rig(2, ac=ref)
+    ac = rig.client()
+
+    async def drive():
+        for i, p in enumerate(payloads):
+            ref.report_body = bytes(p)
+            await ac.refresh()
+            if i + 1 < len(payloads):
+                # the user edits the local copy but never applies it
+                ac.power_state = not ac.power_state
+                ac.target_temperature = 29.0 if ac.target_temperature != 29.0 else 18.0
+                ac.operational_mode = AC.OperationalMode.DRY if ac.operational_mode != AC.OperationalMode.DRY else AC.OperationalMode.HEAT
+                ac.fan_speed = 33
+                ac.swing_mode = AC.SwingMode.BOTH if ac.swing_mode != AC.SwingMode.BOTH else AC.SwingMode.OFF
+                ac.eco, ac.turbo, ac.sleep = not ac.eco, not ac.turbo, not ac.sleep
+                ac.fahrenheit, ac.follow_me, ac.purifier = not ac.fahrenheit, not ac.follow_me, not ac.purifier
+                ac.freeze_protection = not ac.freeze_protection
+                ac.target_humidity = 77
+                ac.aux_mode = AC.AuxHeatMode.AUX_ONLY if ac.aux_mode != AC.AuxHeatMode.AUX_ONLY else AC.AuxHeatMode.OFF
+
+    try:
+        out = rig.run(drive())
         return out, ac
     finally:
         rig.close()
@@ -181,6 +213,18 @@ def run_shard(shard, tier) -> Stats:
                     p[2] = 0x91
                 p[a] = v
                 one({"kind": f"byte{a}", "value": v, "variant": variant}, p, "crc" if v % 2 else "sum")
+    elif kind == "history":
+        # the same report twice with local edits in between, and two different reports in a row
+        for v in range(0, 256, 5):
+            p = base_payload()
+            p[a] = v
+            q = base_payload()
+            q[a] = (v * 7 + 13) & 0xFF
+            for seq, label in (([p, p], "same-report-twice"), ([q, p], "other-report-first"), ([p, q, p], "back-to-first")):
+                case = {"kind": "history", "byte": a, "value": v, "sequence": label}
+                out, ac = execute_history(seq, "crc" if v % 2 else "sum")
+                prob = judge(st, {**case, "kind": f"history {label}"}, seq[-1], out, ac)
+                st.ev(("history", a, v, label), "match" if not prob else "differ", True)
     else:
         for n in range(16, 41):
             for variant in (0, 1, 2):
@@ -200,6 +244,12 @@ def run_shard(shard, tier) -> Stats:
 def replay(case):
     st = Stats()
     p = case["payload"]
+    if str(case.get("kind", "")).startswith("history"):
+        q = base_payload()
+        q[case["byte"]] = (case["value"] * 7 + 13) & 0xFF
+        seq = {"same-report-twice": [p, p], "other-report-first": [q, p], "back-to-first": [p, q, p]}[case["sequence"]]
+        out, ac = execute_history(seq, "crc" if case["value"] % 2 else "sum")
+        return {"problem": judge(st, case, p, out, ac), "state": str(ac.to_dict())[:400]}
     out, ac = execute(p, case.get("check", "crc"))
     prob = judge(st, case, p, out, ac)
     return {"problem": prob, "state": str(ac.to_dict())[:400]}
